@@ -911,7 +911,6 @@ func runC15(r *Run, verifDir string) {
 	r.Check(!hasGo, "C15.O4", "kmipserver/batch-path/no-go", pos, "no goroutine is spawned between HandleRequest and the handlers: items of a request see each other's placeholder writes in order", "items of one request can run concurrently: placeholder reads and writes race")
 }
 
-
 // discoveryOnlyPredicate: fn(req) returns true only if every batch item's Operation is Discover Versions: it compares
 // the Operation of the items with that constant inside a loop, the mismatch edge returns false, and every other return
 // lies outside the loop.
